@@ -8,6 +8,7 @@ CHECKS = {
  'C01': ('A', 'exploration', '5', 'seeded simulated histories on the real library; per-substance ledger over all operands before/after every successful transfer (real objects alone) + locality of wells not addressed', 'deterministic simulation: seeded operation histories with stale-version reuse, conservation ledger invariant after every event'),
  'C02': ('A', 'exploration', '5', 'every successful transfer of every run is compared, per well and per substance, with the exact-rational model step taken from the abstraction of the real pre-state (uniform fraction, size in the unit of q, paired destination gain, n*q for broadcasts)', 'deterministic simulation: seeded histories and long transfer chains checked step by step against an exact reference model'),
  'C03': ('A', 'exploration', '5', 'requests are aimed at both sides of every feasibility boundary the model computes from the current state (source content in each unit, free capacity of each destination well, current quantity, current concentration); decision table must-accept / must-refuse(ValueError) / do-not-care band; impossible-state invariant on every returned object', 'deterministic simulation: boundary-biased infeasible requests as the fault sequence, model-decided accept/refuse oracle'),
+ 'C04': ('C04', 'fault_enumeration', '5', 'complete enumeration of fault instants (injected KeyboardInterrupt / MemoryError at every traced line event of pyplate/*.py, MemoryError from every deepcopy call) for a fixed corpus of 41 operations covering every op kind and pairing form incl. naturally failing part-way ones, plus seeded histories with faults at seeded instants; after every event and every fault the value fingerprint of every live object, argument and slice, and the module config, must be unchanged, and the fault-free retry must equal the dry run', 'deterministic simulation with fault injection: sys.settrace line-level exception injection and failing-deepcopy seam, enumerated over all instants for a corpus and sampled along seeded histories; structural fingerprints of all live objects as the invariant'),
  'C07': ('A', 'exploration', '5', 'differential oracle: every plate/slice operation is re-executed well by well through the container-level API of the real library on free-standing copies and compared; wells not addressed must be fingerprint-identical; pairing rules from an independent selector model', 'deterministic simulation: seeded histories over plate geometries with a per-well differential oracle'),
  'C10': ('A', 'exploration', '5', 'after every state-changing event of every run the stored volume is compared with the volumes of the contents, and a seeded panel of observers (get_volume, get_concentration, get_volumes, get_moles, get_substances, Plate.get_volume) is compared with the definition evaluated in exact arithmetic on the abstraction of the real contents', 'deterministic simulation: observers read after every event of seeded histories, compared with an exact model'),
  'C11': ('A', 'exploration', '5', 'post-condition after every dilute / fill_to event on states reached by seeded histories: only the solvent grew, target met in its own unit (model arithmetic on the real result), capacity respected, infeasible targets refused', 'deterministic simulation (history part): post-conditions on reachable states against an exact model'),
@@ -48,8 +49,10 @@ def main():
             'add_only': True,
         },
         'engines': [
-            {'name': 'A', 'path': 'sim/engine_a.py', 'serves_properties': sorted(p for p, c in CHECKS.items() if 'A' in c[0]),
+            {'name': 'A', 'path': 'sim/engine_a.py', 'serves_properties': sorted(p for p, c in CHECKS.items() if c[0] == 'A'),
              'kind_free_text': 'bench: seeded histories of direct-API operations on real objects, mirrored on an exact model'},
+            {'name': 'C04', 'path': 'sim/engine_c04.py', 'serves_properties': ['C04'],
+             'kind_free_text': 'fault injector: enumeration of all fault instants for a corpus + seeded histories with faults (sim/faults.py)'},
         ],
         'checks': checks,
         'not_applicable': [{'property_id': k, 'reason': v} for k, v in sorted(NOT_APPLICABLE.items())],
